@@ -29,7 +29,23 @@ RULE = ("one matrix (one dense reference) serves 3-4 solves with different "
         "the solver extended its space at least once; distinct = hash of "
         "(matrix seed, options). Adversarial instances (fixed set): lowest root "
         "in an exactly decoupled block; neigen = size/4 on upstream's own test "
-        "matrix; guess indices not coupled among themselves.")
+        "matrix; guess indices not coupled among themselves. Family late_root "
+        "(2400 / 24000 extra solves, 4 per matrix, asan): size 100..200, "
+        "diagonal 1+g(i+0.4u) with g 0.3..1.5, dense random coupling of "
+        "element size 1e-3..1e-1 x g, plus two EQUAL diagonal entries D "
+        "(0.5..2 x the largest) at two positions in the lower half with a "
+        "mutual element c such that D-|c| lies between the lowest 1..4 "
+        "eigenvalues, i.e. one of the lowest roots is missing from the "
+        "unit-vector guess and enters the Ritz window late; the pair is "
+        "coupled to the rest with ABSOLUTE element size 1e-2..1e-1 (90% in "
+        "1e-2..3e-2). Restriction found by the soak: with a pair coupling "
+        "below ~2 x tol (<= 1.6e-3 at 'loose') the unchanged solver reports "
+        "Success without that root (151 of 16000 solves; the known "
+        "approximately-decoupled-block weakness), so the coupling is kept >= "
+        "10 x the loosest tolerance. Options: neigen 4..8, DPR/OLSEN, "
+        "min/safe/max, tolerance loose 80% / normal 12% / strict 4% / lapack "
+        "4%, search-space limit tight (neigen..2 neigen+update+2) in 90% and "
+        "default in 10%, iteration limit 50 (85%) or 200; same oracle.")
 
 
 def _h(fl):
@@ -54,12 +70,14 @@ def run(chk):
     total = vf.tier_n(chk.tier, 300, 6000)
     nlarge = 0 if ONLY_SMALL else vf.tier_n(chk.tier, 48, 800)
     nsmall = total - nlarge
+    nlate = vf.tier_n(chk.tier, 2400, 24000)
     chk.rule = RULE
     chk.sanitizer = {"flavour": "asan (sizes <= 200), fast (sizes > 200)",
                      "reports": 0}
     jobs, names = [], []
     for fl, h, sizes, n in (("asan", ha, "small", nsmall),
-                            ("fast", hf, "large", nlarge)):
+                            ("fast", hf, "large", nlarge),
+                            ("asan", ha, "late", nlate)):
         env = vf.lib_env(fl, {"OMP_NUM_THREADS": "1"})
         per = (n + shards - 1) // shards
         if per == 0:
